@@ -272,6 +272,10 @@ func condDiscipline(c *core.Ctx, r *core.Report) {
 					continue
 				}
 				esc := an.EscapesWithout(s.in, func(in ssa.Instruction) bool { return wakesUnderLock(c, in, w.cond, 2) })
+				if esc != nil && wakesAfterCriticalSection(c, s.in, w.cond, 2) {
+					r.OK(skey, an.Pos(c, s.in), "can end a wait (%s); the write is ordered before a critical section of the Cond's lock that a Broadcast follows on every path (a waiter that saw the old value is already waiting when the lock is taken)", why)
+					continue
+				}
 				if esc == nil {
 					r.OK(skey, an.Pos(c, s.in), "can end a wait (%s); followed on every path by a Broadcast executed with the lock held", why)
 				} else {
@@ -388,4 +392,92 @@ func wakesUnderLock(c *core.Ctx, in ssa.Instruction, cond *types.Var, depth int)
 		return true
 	}
 	return an.EscapesWithout(first, func(x ssa.Instruction) bool { return wakesUnderLock(c, x, cond, depth-1) }) == nil
+}
+
+// broadcasts: the instruction is a Broadcast/Signal on cond (whatever the lock state), or a call of a module function
+// that broadcasts on every path.
+func broadcasts(c *core.Ctx, in ssa.Instruction, cond *types.Var, depth int) bool {
+	call, ok := in.(ssa.CallInstruction)
+	if !ok {
+		return false
+	}
+	if _, isGo := in.(*ssa.Go); isGo {
+		return false
+	}
+	t := an.Callee(call)
+	if t == nil {
+		return false
+	}
+	if isCondMethod(t, "Broadcast") || isCondMethod(t, "Signal") {
+		fld, _ := an.TerminalField(call.Common().Args[0])
+		return an.SameField(fld, cond)
+	}
+	if depth <= 0 || !core.InModule(t) || t.Blocks == nil {
+		return false
+	}
+	first := t.Blocks[0].Instrs[0]
+	if broadcasts(c, first, cond, depth-1) {
+		return true
+	}
+	return an.EscapesWithout(first, func(x ssa.Instruction) bool { return broadcasts(c, x, cond, depth-1) }) == nil
+}
+
+// acquiresCondLock: the instruction takes cond.L (not deferred).
+func acquiresCondLock(in ssa.Instruction, cond *types.Var) bool {
+	call, ok := in.(ssa.CallInstruction)
+	if !ok {
+		return false
+	}
+	op := an.LockOpOf(call)
+	return op != nil && !op.Deferred && op.Op == "Lock" && an.SameField(op.Field, cond)
+}
+
+// lockThenBroadcast: from instruction `from` (exclusive) every path takes cond.L — here or, wholly, inside a module
+// helper — and after every such acquisition every path broadcasts.
+func lockThenBroadcast(c *core.Ctx, from ssa.Instruction, cond *types.Var, depth int) bool {
+	whole := func(in ssa.Instruction) bool {
+		call, ok := in.(ssa.CallInstruction)
+		if !ok || depth <= 0 {
+			return false
+		}
+		if _, isGo := in.(*ssa.Go); isGo {
+			return false
+		}
+		t := an.Callee(call)
+		if t == nil || !core.InModule(t) || t.Blocks == nil {
+			return false
+		}
+		first := t.Blocks[0].Instrs[0]
+		if acquiresCondLock(first, cond) {
+			return an.EscapesWithout(first, func(x ssa.Instruction) bool { return broadcasts(c, x, cond, depth-1) }) == nil
+		}
+		return lockThenBroadcast(c, first, cond, depth-1)
+	}
+	if an.EscapesWithout(from, func(in ssa.Instruction) bool { return acquiresCondLock(in, cond) || whole(in) }) != nil {
+		return false
+	}
+	ok := true
+	an.Instrs(from.Parent(), func(in ssa.Instruction) {
+		if acquiresCondLock(in, cond) && an.ReachableFrom(from, in) {
+			if an.EscapesWithout(in, func(x ssa.Instruction) bool { return broadcasts(c, x, cond, depth) }) != nil {
+				ok = false
+			}
+		}
+	})
+	return ok
+}
+
+// wakesAfterCriticalSection: the idiomatic `mu.Lock(); state = x; mu.Unlock(); cond.Broadcast()`. The write executes
+// with cond.L held and a Broadcast follows on every path; or the write is made without the lock, and afterwards every
+// path passes a critical section of cond.L followed by a Broadcast. Either way a waiter that evaluated the predicate
+// before the write holds the lock until it waits, so it is waiting when the Broadcast comes; one that evaluates it
+// afterwards sees the new value.
+func wakesAfterCriticalSection(c *core.Ctx, write ssa.Instruction, cond *types.Var, depth int) bool {
+	ls := an.NewLockState(write.Parent())
+	for _, h := range ls.At(write) {
+		if h.Mode == 'W' && an.SameField(h.Field, cond) {
+			return an.EscapesWithout(write, func(x ssa.Instruction) bool { return broadcasts(c, x, cond, depth) }) == nil
+		}
+	}
+	return lockThenBroadcast(c, write, cond, depth)
 }
